@@ -99,8 +99,12 @@ func c18SplitChars(s string) []string {
 func (c *c18Ctx) shrink(src, key string) string {
 	stage := c18StageOfKey(key)
 	test := func(ps []string) bool {
+		cand := strings.Join(ps, "")
+		c.cur.Store("shrinking " + key + "\x00" + cand)
 		c.progress.Add(1)
-		return c18JudgeStages(strings.Join(ps, ""), false, stage).has(key)
+		ok := c18JudgeStages(cand, false, stage).has(key)
+		c.cur.Store("")
+		return ok
 	}
 	cur := strings.Join(c18DDMin(c18SplitLines(src), test, 600), "")
 	cur = strings.Join(c18DDMin(c18SplitWords(cur), test, 600), "")
@@ -137,6 +141,7 @@ func (c *c18Ctx) eval(origin, src string, idemOnly bool, layer string) {
 	c.cur.Store(origin + "\x00" + src)
 	c.progress.Add(1)
 	v := c18Judge(src, idemOnly)
+	c.cur.Store("")
 	c.res.Evaluations++
 	c.res.Count("cases/"+layer, 1)
 	if v.Accepted {
@@ -209,7 +214,7 @@ func TestVerif_C18(t *testing.T) {
 		defer func() { done <- recover() }()
 		c.run()
 	}()
-	// generous hang watchdog: no case takes longer than milliseconds
+	// generous hang watchdog: a case takes milliseconds; the machine may be heavily loaded
 	last, lastAt := int64(-1), time.Now()
 	tick := time.NewTicker(time.Second)
 	defer tick.Stop()
@@ -223,10 +228,10 @@ func TestVerif_C18(t *testing.T) {
 		case <-tick.C:
 			if n := c.progress.Load(); n != last {
 				last, lastAt = n, time.Now()
-			} else if time.Since(lastAt) > 60*time.Second {
-				cur := c.cur.Load().(string)
+			} else if cur := c.cur.Load().(string); cur != "" && time.Since(lastAt) > 240*time.Second {
+				// (cur is empty while the harness itself works: generating / rendering the corpus)
 				origin, src, _ := strings.Cut(cur, "\x00")
-				res.Violate("hang", "a tool or front end did not return within 60 s on "+c18Q(src)+" ["+origin+"]", c18MkReplay("hang", origin, src, false))
+				res.Violate("hang", "a tool or front end did not return within 240 s on "+c18Q(src)+" ["+origin+"]", c18MkReplay("hang", origin, src, false))
 				res.Exhaustive = false
 				running = false
 			}
